@@ -91,14 +91,34 @@ def close(a, b, rtol=1e-9):
         return True
 
 
+def process_settings():
+    """process-wide settings a numerical library has no business leaving changed: NumPy's floating-point error handling and
+    print options, the warnings filters, the default float formatting of the decimal context"""
+    import decimal
+    return (tuple(sorted(numpy.geterr().items())), repr(sorted((k, repr(v)) for k, v in numpy.get_printoptions().items())),
+            len(warnings.filters), repr(warnings.filters[:3]), decimal.getcontext().prec)
+
+
 def observe(f, args, kwargs):
-    """returns dict of observed effects for one recipe"""
-    obs = {"writes": False, "alias": False, "rng": False, "unrepeatable": False, "error": None}
+    """returns dict of observed effects for one recipe (process-wide settings are put back afterwards, so that every recipe is
+    measured from the same state)"""
+    err_keep, print_keep = numpy.geterr(), numpy.get_printoptions()
+    try:
+        return _observe(f, args, kwargs)
+    finally:
+        numpy.seterr(**err_keep); numpy.set_printoptions(**print_keep)
+
+
+def _observe(f, args, kwargs):
+    """the observation itself"""
+    obs = {"writes": False, "alias": False, "rng": False, "unrepeatable": False, "settings": False, "error": None}
     def fresh():
         return [clone(a) if isinstance(a, numpy.ndarray) else copy.deepcopy(a) for a in args], {k: (clone(v) if isinstance(v, numpy.ndarray) else copy.deepcopy(v)) for k, v in kwargs.items()}
     import contextlib, io
+    err0, print0 = numpy.geterr(), numpy.get_printoptions()
     with warnings.catch_warnings(), contextlib.redirect_stdout(io.StringIO()):
         warnings.simplefilter("ignore")
+        env0 = process_settings()
         # (1) read-only arguments
         a1, k1 = fresh()
         for x in list(a1) + list(k1.values()):
@@ -124,6 +144,8 @@ def observe(f, args, kwargs):
             return obs
         if pickle.dumps(numpy.random.get_state()) != st_np or random.getstate() != st_py:
             obs["rng"] = True
+        if process_settings() != env0:
+            obs["settings"] = True
         for x, s in snaps:
             if snapshot(x) != s:
                 obs["writes"] = True
@@ -193,6 +215,8 @@ def property_checks(seed, deep):
             out.append(("global generator state changed: %s" % name, 1.0, 0.0))
         if obs["unrepeatable"]:
             out.append(("equal arguments, different results: %s" % name, 1.0, 0.0))
+        if obs.get("settings"):
+            out.append(("process-wide numerical settings (floating-point error handling, print options, warning filters) changed: %s" % name, 1.0, 0.0))
         # the same call with the array arguments in another memory layout (column-major copies; every-other-element views): the
         # layout is not part of the value, so nothing may be written, aliased or changed in the result
         if any(isinstance(a, numpy.ndarray) for a in list(args) + list(kwargs.values())) and name not in KNOWN:
